@@ -77,6 +77,12 @@ func c16r8Table(tier string) []c16r8Case {
 	t := []c16r8Case{
 		{kind: "history"},
 		{kind: "leaked", sizes: []int{4097, 12000, 4097}},
+		{kind: "overlap-host", sizes: []int{12, 8000}},
+		{kind: "overlap-script", sizes: []int{12, 8000}},
+		{kind: "overlap-host", sizes: []int{16, 5000}},
+		{kind: "overlap-host", sizes: []int{4, 8000}},
+		{kind: "overlap-script", sizes: []int{5, 8000}},
+		{kind: "overlap-host", sizes: []int{8, 8000}},
 		{kind: "crowd", shape: "chain", sizes: []int{12000}},
 		{kind: "crowd", shape: "fanin", sizes: []int{12000}},
 		{kind: "crowd", shape: "fanout", sizes: []int{12000}},
@@ -165,6 +171,10 @@ func c16R8Run(c *wk.Case) bool {
 		}
 	case "forin":
 		c16r8Once(c, c16r8Stream(c.Rng, k.sizes[0], "forin"), c16r8Procs(c), "")
+	case "overlap-host":
+		c16r9Overlap(c, "host", k.sizes[0], k.sizes[1])
+	case "overlap-script":
+		c16r9Overlap(c, "script", k.sizes[0], k.sizes[1])
 	case "hot-xfer":
 		c16r8Once(c, c16r8HotXfer(c.Rng, c.Tier), c16r8Procs(c), "")
 	case "hot-closed":
